@@ -206,3 +206,24 @@ func (f *fn) blockPos(b *flow.Block) token.Pos {
 	}
 	return f.Decl.Pos()
 }
+
+// alias registers rule `target` (of another property) under a new id for a property whose statement depends
+// on it: the obligations are re-decided by the same engine and reported under the dependent property as well.
+func alias(prop, id, targetID, why string) {
+	var target *core.Rule
+	for _, r := range all {
+		if r.ID == targetID {
+			target = r
+		}
+	}
+	if target == nil {
+		panic("alias: unknown rule " + targetID)
+	}
+	register(&core.Rule{ID: id, Prop: prop, MinSites: target.MinSites, Applies: target.Applies,
+		Desc: "(= " + targetID + ", " + why + ") " + target.Desc,
+		Run: func(c *core.Ctx) {
+			sub := &core.Ctx{P: c.P, R: &core.Rule{ID: id, Prop: prop}}
+			target.Run(sub)
+			c.Obls = append(c.Obls, sub.Obls...)
+		}})
+}
